@@ -359,7 +359,7 @@ where
         if let Some((line_num, pos, byte)) = self.first_byte()? {
             if byte == b'>' {
                 self.buf_pos.start = pos;
-                self.position.byte = pos as u64;
+                self.position.byte += pos as u64;
                 self.position.line = line_num as u64;
                 self.search_pos = pos + 1;
                 return Ok(true);
@@ -376,9 +376,10 @@ where
     }
 
     fn first_byte(&mut self) -> Result<Option<(usize, usize, u8)>, Error> {
-        let mut line_num = 0;
-
+        // `self.position` keeps track of the empty lines and bytes
+        // that were already removed from the buffer
         while fill_buf(&mut self.buf_reader)? > 0 {
+            let mut line_num = self.position.line as usize;
             let mut pos = 0;
             let mut last_line_len = 0;
             for line in self.get_buf().split(|b| *b == b'\n') {
@@ -391,7 +392,10 @@ where
             }
             // If an orphan '\r' is found at the end of the buffer,
             // we need to move it to the start and re-search the line
-            self.buf_reader.consume(pos - 1 - last_line_len);
+            let consumed = pos - 1 - last_line_len;
+            self.position.line = line_num as u64 - 1;
+            self.position.byte += consumed as u64;
+            self.buf_reader.consume(consumed);
             self.buf_reader.make_room();
         }
         Ok(None)
